@@ -44,9 +44,10 @@ def llw_check_mode(chk, fv, n):
             chk.violation("format-then-check", "`llw -f f && llw -f -c f` fails although format is a fixpoint in-process",
                           {"text": text, "exit": r2.returncode})
         elif r2.returncode != 0:
-            from .c17 import classify_nonidem
-            chk.violation("nonidem:" + classify_nonidem(text, rep["out"], rep.get("out2")),
-                          f"`llw -f f && llw -f -c f` fails for {text[:60]!r}", {"text": text, "out": rep["out"], "out2": rep.get("out2")})
+            from .c17 import classify_nonidem_all
+            for sig in classify_nonidem_all(text, rep["out"], rep.get("out2")):
+                chk.violation("nonidem:" + sig,
+                              f"`llw -f f && llw -f -c f` fails for {text[:60]!r}", {"text": text, "out": rep["out"], "out2": rep.get("out2")})
     probe.close()
     rmtree(d)
     chk.count("llw_format_then_check_files", done)
